@@ -24,6 +24,12 @@ def registered_names():
     return re.findall(r'\(\* (\w+) : \w+::\w+ \*\)', open(p).read())
 
 
+def impure_names():
+    """names registered impure, from the regenerated table"""
+    p = os.path.join(COQ, 'Gen', 'GenBuiltins.v')
+    return re.findall(r', false\)\s+\(\* (\w+) :', open(p).read())
+
+
 def bi(off, name, args):
     return f"(bi _ {off} {s(name)}" + "".join(" " + a for a in args) + ")"
 
